@@ -528,10 +528,11 @@ theorem n03_internalSupersG_tr {inline : String → G String} {L : String → Li
 
 /-! ### the log of a class, as a pure function -/
 
-/-- the names a class defines itself: emitted attributes and emitted methods (the set `already_defined`
-    handed to the inlining of private bases) -/
+/-- the names a class defines itself: emitted attributes, emitted methods and the public inner classes
+    (the set `already_defined` handed to the inlining of private bases) -/
 def n03_ownNames (c : Class) : List String :=
-  unionSet (n03_attrNames c.attributes) (n03_methNames false [] c.methods)
+  unionSet (unionSet (n03_attrNames c.attributes) (n03_methNames false [] c.methods))
+    ((c.classes.filter (·.isPublic)).map (·.name))
 
 mutual
 /-- what `createClassString env fuel c _ true` appends to the log -/
@@ -597,6 +598,11 @@ theorem n03_classBody_tr (env : Env) (fuel : Nat)
   have h0 := n03_Tr.logEmit st "class" c.id
   rw [wp_bind]; refine wp_conseq (n03_Quiet.wp ?_ _) fun ci s1 h1 => ?_
   · n03_quiet [n03_createParameterString_quiet]
+  rw [wp_bind, wp_get]
+  dsimp only
+  rw [wp_bind, wp_modify]
+  generalize hs1 : ({ s1 with classGenerics := [] } : St) = s1'
+  have h1' : n03_Tr s1 s1' [] [] := by rw [← hs1]; exact ⟨by simp, rfl, rfl, rfl, rfl⟩
   rw [wp_bind]; refine wp_conseq (n03_Quiet.wp ?_ _) fun vi s2 h2 => ?_
   · n03_quiet [n03_typeParamStrings_quiet]
   rw [wp_bind]; refine wp_conseq ((n03_createTodoMsg_quiet indent).wp _) fun t1 s3 h3 => ?_
@@ -632,10 +638,13 @@ theorem n03_classBody_tr (env : Env) (fuel : Nat)
   dsimp only
   simp only [wp_condTodo, wp_bind]
   refine wp_conseq ((n03_createTodoMsg_quiet indent).wp _) fun t2 s8 h8 => ?_
+  rw [wp_modify]
+  generalize hs9 : ({ s8 with classGenerics := s1.classGenerics } : St) = s9
+  have h8' : n03_Tr s8 s9 [] [] := by rw [← hs9]; exact ⟨by simp, rfl, rfl, rfl, rfl⟩
   rw [wp_logEmit]
-  have h9 := n03_Tr.logEmit s8 "endclass" c.id
-  have hall := ((((((((h0.trans h1).trans h2).trans h3).trans h4).trans h5).trans h6).trans
-    (h7.ite_todos _ _)).trans h8).trans h9
+  have h9 := n03_Tr.logEmit s9 "endclass" c.id
+  have hall := ((((((((((h0.trans h1).trans h1').trans h2).trans h3).trans h4).trans h5).trans h6).trans
+    (h7.ite_todos _ _)).trans h8).trans h8').trans h9
   have hfin := hall.cast (Δ' := n03_classLog env (fuel + 1) c) (R' := [])
     (by rw [n03_classLog_succ]; simp) (by simp)
   rw [wp_ite]
